@@ -54,7 +54,7 @@ def params(draw, row, N, cplx, windows=None):
     if row == "Periodogram":
         return {"window": draw(st.sampled_from(windows or WINDOWS_SIMPLE))}
     if row == "pcorrelogram":
-        return {"lag": draw(st.integers(1, max(1, (N - 1) // 2))), "window": draw(st.sampled_from(windows or WINDOWS_SIMPLE))}
+        return {"lag": draw(st.integers(1, max(1, min((N - 1) // 2, 40)))), "window": draw(st.sampled_from(windows or WINDOWS_SIMPLE))}
     if row == "pburg":
         return {"order": draw(st.integers(1, min(N // 2, 12)))}
     if row == "pyule":
@@ -64,8 +64,8 @@ def params(draw, row, N, cplx, windows=None):
     if row == "parma":
         P = draw(st.integers(1, 6))
         Q = draw(st.integers(1, 5))
-        lo = max(Q, 2 * P)
-        hi = max(lo, min(N // 2, N - 2 * P + Q))
+        lo = max(Q, 2 * P + 1)      # strictly over-determined inner least squares (lag - P > P), cf. N - p > p
+        hi = max(lo, min(N // 2, N - 2 * P + Q, 48))
         lag = draw(st.integers(lo, hi))
         if not (lag + 2 * P - Q <= N and 2 * Q < N - P and lag < N):
             P, Q, lag = 1, 1, 4
@@ -91,10 +91,13 @@ def sanitize(row, x):
     """Integer-valued data can have an autocorrelation lag that is exactly zero, which makes the
     inner least-squares problem of the ARMA estimator exactly singular (NaN model): 'degenerate
     data' in the sense of C15.  The relational properties use continuous data for that row."""
-    if row == "parma" and x.get("kind") == "int":
+    if row == "parma" and x.get("kind") in ("int", "trend"):
+        # (a trend with little noise has nearly constant lags: the modified Yule-Walker
+        # equations are then nearly singular and the model is decided by rounding)
         x = dict(x)
         x["kind"] = "noise"
-        x.pop("range", None)
+        for k in ("range", "slope", "offset", "noise"):
+            x.pop(k, None)
     return x
 
 
